@@ -74,6 +74,60 @@ def r1(ctx, res):
     res.check(has("return custom_repr(self)", er), er, "return custom_repr(self)", reason="elements use the derived repr")
 
 
+@rule("R3", "a generated class header omits a class keyword only when it is the default, the implied additionalProperties, or the description")
+def r3(ctx, res):
+    from .norm import view, builders
+    from .paths import flatten_guard
+    py = ctx.func("ObjectMeta.python")
+    vb = view(py, ctx.prog).body
+    verdict = None
+    detail = {}
+    for b in builders(vb):
+        if b.kind not in ("list", "gen") or not has("inspect.signature(type(cls).__new__).parameters", b.iter):
+            continue
+        p = norm(b.target)
+        if not isinstance(b.elt, ast.JoinedStr):
+            continue
+        VAL = [f"getattr(cls, {p}.name, NotPassed())"]
+        # locals that hold the value
+        for st in walk_own(py.body):
+            if isinstance(st, ast.Assign) and len(st.targets) == 1 and isinstance(st.targets[0], ast.Name) \
+                    and norm(st.value) == VAL[0]:
+                VAL.append(st.targets[0].id)
+        reads_value = any(isinstance(x, ast.Call) and dotted(x.func) == "getattr" and len(x.args) >= 2 and norm(x.args[0]) == "cls"
+                          for x in ast.walk(b.elt)) or any(v in norm(b.elt) for v in VAL)
+        wrong_default = [norm(x) for st in walk_own(py.body) for x in ast.walk(st) if isinstance(x, ast.Call) and dotted(x.func) == "getattr"
+                         and len(x.args) == 3 and norm(x.args[0]) == "cls" and norm(x.args[1]) == f"{p}.name"
+                         and norm(x.args[2]) != "NotPassed()"]
+        conds = [c for t, pol in b.guards for c in flatten_guard(t, pol)]
+        allowed = []
+        stray = []
+        for t, pol in conds:
+            txt = ("" if pol else "not ") + norm(t)
+            c = cmp_atom(t, pol)
+            if c and c[0] == f"{p}.kind" and c[2] == f"{p}.KEYWORD_ONLY" and c[1] == "==":
+                allowed.append(txt)
+            elif c and c[1] == "!=" and c[2] == f"{p}.default" and c[0] in VAL or c and c[1] == "!=" and c[0] == f"{p}.default" and c[2] in VAL:
+                allowed.append(txt)
+            elif c and c[0] == f"{p}.name" and c[2] == "'description'" and c[1] == "!=":
+                allowed.append(txt)
+            elif not pol and isinstance(t, ast.BoolOp) and isinstance(t.op, ast.And) and len(t.values) == 2 \
+                    and norm(t.values[0]) == f"{p}.name == 'additionalProperties'" and any(norm(t.values[1]) == f"{v} is True" for v in VAL):
+                allowed.append(txt)
+            else:
+                stray.append(txt)
+        detail = {"filters": allowed, "other_filters": stray, "value_read_with_another_fallback": wrong_default}
+        if wrong_default or any(any(v in s_ for v in VAL) or "value" in s_ for s_ in stray):
+            verdict = False
+        elif stray:
+            verdict = None
+        else:
+            verdict = True if len(allowed) == 4 and reads_value else None
+    res.judge(verdict, py, "cls_args: every keyword-only parameter whose value differs from its default", detail=detail,
+              reason="a class keyword is left out of the generated header although its value is not the constructor default "
+                     "(for example a `default` or `const` of None - JSON null): the executed class differs from the parsed one")
+
+
 # ---------------------------------------------------------------------- R2
 @rule("R2", "no element class overrides the derived repr; Property repr drops `source` only when it equals the bound name")
 def r2(ctx, res):
@@ -434,7 +488,8 @@ def _title_patterns(ctx, tf):
     directly or through a module-level compiled pattern."""
     from .rules_t import deref_const
     delim = seg = None
-    for n in walk_own(tf.body):
+    from .norm import view
+    for n in walk_own(view(tf, ctx.prog).body):
         if not (isinstance(n, ast.Call) and isinstance(n.func, ast.Attribute) and n.func.attr in ("split", "findall")):
             continue
         if dotted(n.func.value) == "re" and n.args:
@@ -568,8 +623,8 @@ def a2(ctx, res):
     via = view(ia, ctx.prog).body
     an = None
     for b in builders(via):
-        if b.kind == "list" and norm(b.iter) == "self.items" and norm(b.elt) == f"{norm(b.target)}.annotation" and not b.guards and b.name:
-            an = b.name
+        if b.kind == "list" and norm(b.iter) == "self.items" and norm(b.elt) == f"{norm(b.target)}.annotation" and not b.guards:
+            an = b.name or (norm(b.node) if isinstance(b.node, ast.ListComp) else None)
     if an is None:
         res.unrecognised(ia, "annotations = [item.annotation for item in self.items]", reason="every tuple member contributes")
         return
